@@ -135,7 +135,10 @@ def clear_caches():
 def polyhedron(spec):
     """{"m": [[b, a1, ...], ...], "vars": [[id, lo, hi], ...] (A columns), "index": [ids]|null}"""
     puan, pg, pnd, cc = mods()
-    variables = [puan.variable.support_vector_variable()] + [
+    first = puan.variable.support_vector_variable()
+    if spec.get("support") == "plain":
+        first = puan.variable("0")          # column 0 labelled by an ordinary variable, as variable.from_strings("0", "x", ...) does
+    variables = [first] + [
         (puan.variable(v[0], (v[1], v[2]), dtype=v[3]) if len(v) > 3 and v[3] else puan.variable(v[0], (v[1], v[2]))) for v in spec["vars"]]
     index = spec.get("index") or []
     index = [puan.variable(i, (0, 1)) for i in index]
